@@ -3,6 +3,10 @@
 import json, os
 root = os.path.dirname(os.path.dirname(os.path.abspath(__file__)))
 CHECKS = [
+ dict(id="C04", level="exploration", engine="gen (differential: original vs decoded vs re-decoded)", design="§5 C04",
+      technique="bounded exhaustive program enumeration, differential execution of original, once and twice round-tripped bytecode on every program and input",
+      text="The C02/C03 corpora and the C11 jump grammar (x 4 inputs), one program per constant kind/value (every varint and length-prefix boundary, NaN/Inf/-0, negative and maximal chars, non-UTF-8 strings, 300 constants, nested functions), and programs importing builtin-module maps with an attribute of every value type (functions nested in containers, several gob-fallback values), the real strings/time/json/fmt modules and source modules are compiled, encoded, decoded (and again): value, probe log, output, globals, error name+message and stack-trace lines/files must be equal, the decoded bytecode must pass the structural verifier, the original must be untouched, and decoding with a mismatching module map must be an error, never a panic.",
+      note="Trusted: the harness runner; programs beyond the corpora are not covered."),
  dict(id="C05", level="exploration", engine="gen + inputs + bcv (subprocess, watchdog)", design="§5 C05",
       technique="bounded exhaustive input enumeration (all lexeme strings and byte strings up to a length, all single-lexeme mutations of seeds, all fragment pairs, capacity boundary programs) with a structural bytecode verifier as oracle",
       text="Every string of <= 3 lexemes over 48 lexemes and <= 4 over 20 (thorough 4 / 5), every byte string of length <= 2 (thorough 3), the C02/C03 corpora under 60 option combinations (optimizer budget, tracing, module map, Compile / Eval / imported module), programs at limit-1/limit/limit+1 of every operand width, every single-lexeme deletion/duplication/replacement of 40 seeds, and every ordered pair of 66 fragments through one Eval session are compiled: no panic, no fatal error, return within 10 s, well-formed bytecode on success (operands, targets, indexes in range, NumLocals <= 256), an error beyond a capacity limit.",
